@@ -199,7 +199,14 @@ def _exec_case(case):
                     fed = x
                     if case["model"] in ("lone-q-input", "ln-q-input"):
                         s_in = (x.abs().max() / qmax * [1.0, 1.7, 0.6][nb % 3]).to(dtype)
-                        fed = quantize_activation(x, aq, torch.where(s_in > 0, s_in, torch.ones_like(s_in)))
+                        fq = aq
+                        if case["seed"] % 3 == 0:
+                            # the upstream stage quantizes with ANOTHER 8-bit qtype: its scale is relative to another range, the module
+                            # requantizes such an input and evaluates its own scale from the values
+                            names8 = sorted(O.QT8)
+                            fq = O.QT8[names8[(names8.index(aq.name) + 1 + case["seed"] % 2) % 3]]
+                            s_in = (x.abs().max() / float(O.grid(fq)[-1]) * [1.0, 1.7, 0.6][nb % 3]).to(dtype)
+                        fed = quantize_activation(x, fq, torch.where(s_in > 0, s_in, torch.ones_like(s_in)))
                     seen.clear()
                     before = {n: (m.input_scale.detach().clone(), m.output_scale.detach().clone(), m.activation_qtype) for n, m in qmods}
                     with torch.set_grad_enabled(not case["no_grad"]):
@@ -224,14 +231,19 @@ def _exec_case(case):
                                 continue
                             adopted = False
                             if which == "in":
-                                if isinstance(inp, QBytesTensor):
+                                if isinstance(inp, QBytesTensor) and inp.qtype == aq:
                                     new, ntol, adopted = float(inp._scale.detach().to(torch.float64).max()), 0.0, True
+                                elif isinstance(inp, QBytesTensor):
+                                    new = float(inp.dequantize().detach().to(torch.float64).abs().max()) / qmax
+                                    ntol = 2 * u * new + gen.ETA[dtype]
                                 else:
                                     new = float(inp.detach().to(torch.float64).abs().max()) / qmax
                                     ntol = 2 * u * new + gen.ETA[dtype]
                             else:
-                                if isinstance(inp, QBytesTensor):
+                                if isinstance(inp, QBytesTensor) and inp.qtype == aq:
                                     x_in = inp.dequantize().detach()
+                                elif isinstance(inp, QBytesTensor):
+                                    x_in = quantize_activation(inp.dequantize().detach(), aq, m.input_scale.detach()).dequantize()
                                 elif isinstance(m, torch.nn.LayerNorm):
                                     x_in = inp.detach()
                                 else:
@@ -241,7 +253,7 @@ def _exec_case(case):
                                     out.discard = True  # the float module itself overflows the dtype on this batch
                                     return out
                                 new = float(raw.abs().max()) / qmax
-                                s_used = inp._scale.detach().to(torch.float64).max() if isinstance(inp, QBytesTensor) else m.input_scale.detach().to(torch.float64)
+                                s_used = inp._scale.detach().to(torch.float64).max() if isinstance(inp, QBytesTensor) and inp.qtype == aq else m.input_scale.detach().to(torch.float64)
                                 extra = 0.0 if isinstance(m, torch.nn.LayerNorm) else scale_product_term(m, s_used, x_in, dtype)
                                 ntol = (float(bound.max()) + extra) / qmax + 2 * u * new + gen.ETA[dtype]
                             if not (new == new and abs(new) != float("inf")) or not bool(torch.isfinite(got_t).all()) and not bool(torch.isfinite(torch.as_tensor(new))):
